@@ -26,6 +26,7 @@ COMP = [
     ("sha256crypt", "$5$", "sha256crypt", 16, 40, []),
     ("sha512crypt", "$6$", "sha512crypt", 16, 40, []),
     ("sha1crypt", "$sha1", "sha1crypt", 20, 40, ["COUNT_MAX=4096"]),
+    ("sha1crypt-70", "$sha1", "sha1crypt", 70, 90, ["COUNT_MAX=4096"]),
     ("yescrypt", "$y$", "yescrypt", 16, 40, []),
     ("yescrypt-70", "$y$", "yescrypt", 70, 110, []),
     ("scrypt", "$7$", "scrypt", 16, 44, []),
